@@ -165,9 +165,10 @@ func Convert(value any, typ reflect.Type) (any, error) { //nolint: gocyclo
 		if rv.Kind() != reflect.Map {
 			return nil, conversionError("", value, typ)
 		}
-		for _, key := range rv.MapKeys() {
-			// look the entry up with its own key, before the key is converted to the target's key type
-			ev := rv.MapIndex(key)
+		// in key order: which entry an error names, and which of two keys that convert to the same
+		// key wins, must not depend on Go's map iteration order
+		for _, entry := range SortedMapEntries(rv) {
+			key, ev := entry.Key, entry.Value
 			if typ.Key().Kind() == reflect.String {
 				key = reflect.ValueOf(fmt.Sprint(key))
 			}
@@ -231,8 +232,8 @@ func Convert(value any, typ reflect.Type) (any, error) { //nolint: gocyclo
 			return result.Interface(), nil
 		case reflect.Map:
 			result := reflect.MakeSlice(typ, 0, rv.Len())
-			for _, key := range SortedMapKeys(rv) {
-				item, err := Convert(rv.MapIndex(key).Interface(), typ.Elem())
+			for _, entry := range SortedMapEntries(rv) {
+				item, err := Convert(entry.Value.Interface(), typ.Elem())
 				if err != nil {
 					return nil, err
 				}
